@@ -75,6 +75,10 @@ def inputs(tier):
                 out.append(('chain', d, c, refocus, 0))
             out.append(('chain', d, c, True, 1))
             out.append(('simplified', d, c, True, 0))
+    if tier == 'quick':
+        # the repeated middle block exists from 4 cycles on and is repeated at least twice from 5 cycles on
+        for c in (5, 6):
+            out.append(('chain', 3, c, True, 0))
     maxd = 3 if tier == 'quick' else 4
     for name in LAYOUTS:
         chain = chain_of(LAYOUTS[name]())
@@ -130,8 +134,52 @@ class OverlapFamily(Family):
         return res
 
 
+class SameObjectFamily(Family):
+    """The property holds 'whatever the configured durations are': the same circuit object is re-timed under every
+    configuration in turn (ascending and descending order), so a duration that is computed once and kept is seen."""
+
+    def __init__(self, tier):
+        self.vals = (1.0, 2.0, 3.0)
+        self.name = 'library-overlap/same-object'
+        self.rule = ('one circuit object per constructor input (constructed and unrolled under the repository default), then timed under every assignment of %r to the four durations in '
+                     'ascending and in descending order; non-trivial = always' % (list(self.vals),))
+        self._inputs = [i for i in inputs('quick') if (i[0] in ('chain', 'simplified') and i[2] in (2, 4)) or i[0] == 'calibration' or (i[0] == 'layout' and len(i[2]) <= 3 and i[3] == 2)]
+
+    def shards(self, tier):
+        return list(range(len(self._inputs)))
+
+    def cases(self, tier, shard):
+        yield self._inputs[shard]
+
+    def describe(self, tier):
+        return {'inputs': len(self._inputs), 'configurations': 2 * len(self.vals) ** 4}
+
+    def run(self, inp):
+        res = Res()
+        c = build_input(inp)
+        un = build_input(inp).apply_modifiers()
+        cfgs = list(itertools.product(self.vals, repeat=4))
+        n = 0
+        for order in (cfgs, cfgs[::-1]):
+            for cfgv in order:
+                with world.override(world.cfg(*cfgv)):
+                    for label, circ in (('as constructed', c), ('unrolled under the default configuration', un)):
+                        bad = overlaps(circ.operations)
+                        n += 1
+                        if bad:
+                            res.fail('C10-overlap-reconfigured', 'input %r %s, re-timed under %r after other configurations: qubit %d double-booked: %r and %r' % (
+                                inp, label, cfgv, bad[0], bad[1], bad[2]))
+                            res.outcome = ('fail', cfgv)
+                            res.transitions = n
+                            return res
+        res.outcome = (inp, n)
+        res.transitions = n
+        res.trivial = False
+        return res
+
+
 def families(tier):
-    return [OverlapFamily(tier)]
+    return [OverlapFamily(tier), SameObjectFamily(tier)]
 
 
 def signature(f):
